@@ -13,7 +13,16 @@
 //!    `DeliveryInfo` the error carries (reject / reject_all / release) by the same disposal events;
 //!  * long streams: for Auto(n) every combination of disposal discipline x sender style, a
 //!    credit-respecting sender that sends whenever it has credit must get 5n+3 messages through (in two
-//!    of the sender styles every third delivery / every delivery cannot be decoded by recv()).
+//!    of the sender styles every third delivery / every delivery cannot be decoded by recv());
+//!  * part R, resumed links: the application detaches the link (`Receiver::detach`, not closing) and resumes
+//!    it (`DetachedReceiver::resume`); the scripted sender answers the detach and attaches again announcing an
+//!    initial-delivery-count of its choosing.  Every combination of policy {Auto(1), Auto(2), Auto(4), Manual
+//!    with set_credit(3)} x deliveries received before the detach (0..=n) x of which disposed of (0..=k) x
+//!    deliveries still waiting inside the link at the detach (0, 1, 2; unsettled / pre-settled) x the new
+//!    initial-delivery-count x sender style after the resume (three credit-respecting ones that then stream
+//!    3n+3 deliveries, one that overruns the new limit by one) x disposal discipline x when the deliveries held
+//!    across the detach are disposed of.  The three clauses are judged on the new attachment exactly as on a
+//!    fresh link; the signatures carry the suffix " (resumed link)".
 //!
 //! The monitor keeps the three clauses of the statement apart (signatures start with c1 / c2 / c3):
 //!  c1  every link flow the receiver emits carries delivery-count = the value last learnt from the sender
@@ -167,6 +176,9 @@ enum DState {
     Queued,
     Handed,
     Rejected,
+    /// (part R) it was waiting inside the link when the application detached the link: the attachment it
+    /// was sent on is gone and so is the delivery
+    Dropped,
 }
 
 #[derive(Debug, Clone)]
@@ -302,6 +314,13 @@ struct Mon {
     /// the harness itself did not do what it meant to do (never a verdict)
     machinery: Vec<String>,
     cnt: Counters,
+    /// (part R) the link has been detached and resumed: everything judged from now on is judged on the new
+    /// attachment and reported with the suffix " (resumed link)"
+    resumed: bool,
+    /// (part R) deliveries sent before the detach that recv() returned after the resume
+    dropped_returned: usize,
+    /// (part R) deliveries that were waiting inside the link when it was detached
+    waiting_at_detach: usize,
 }
 
 impl Mon {
@@ -326,7 +345,36 @@ impl Mon {
             fails: vec![],
             machinery: vec![],
             cnt: Counters::default(),
+            resumed: false,
+            dropped_returned: 0,
+            waiting_at_detach: 0,
         }
+    }
+
+    /// (part R) The link was detached and has been attached again: a new attachment begins.  The scripted
+    /// sender announced `idc` as initial-delivery-count in its new attach; the receiver has issued no credit on
+    /// this attachment yet (2.6.7: link-credit is initialised to zero when a link endpoint is created), which is
+    /// the state recorded as the first "flow" of the attachment.  Deliveries that were still waiting inside the
+    /// link are gone with the old attachment.  Frames of the trace before `cursor` belong to the old attachment.
+    fn reattach(&mut self, idc: u32, lib_handle: u32, cursor: usize) -> usize {
+        let mut dropped = 0;
+        for s in self.sent.iter_mut().filter(|s| s.st == DState::Queued) {
+            s.st = DState::Dropped;
+            dropped += 1;
+        }
+        self.cfg.idc = idc;
+        self.lib_handle = lib_handle;
+        self.snd_dc = idc;
+        self.base_val = idc;
+        self.base_sent = self.sent.len();
+        self.base_is_flow = false;
+        self.rflows.push(RFlow { dc: idc, credit: 0, drain: false, handed_at: self.handed });
+        self.detach_conditions.clear();
+        self.sflow_over_queue = false;
+        self.cursor = cursor;
+        self.resumed = true;
+        self.waiting_at_detach += dropped;
+        dropped
     }
 
     fn fail(&mut self, sig: &str, detail: String) {
@@ -334,7 +382,10 @@ impl Mon {
         // were still waiting inside the link get their own class, so that a defect reachable only that
         // way does not hide anything else
         let tag = if self.sflow_over_queue { "sender-flow-over-waiting-deliveries: " } else { "" };
-        self.fails.push((format!("{tag}{sig} [{:?}]", self.cfg.side), detail));
+        // likewise (part R) the resumed links that were detached while deliveries were waiting inside the link
+        let tag = if self.waiting_at_detach > 0 { format!("deliveries-waiting-at-detach: {tag}") } else { tag.to_string() };
+        let sfx = if self.resumed { " (resumed link)" } else { "" };
+        self.fails.push((format!("{tag}{sig}{sfx} [{:?}]", self.cfg.side), detail));
     }
 
     /// the sender's link-credit by the formula of the spec (2.6.7):
@@ -526,7 +577,7 @@ impl Mon {
                 format!("recv() {what} delivery m{i} after having refused it as a transfer-limit violation"),
             ),
             DState::Handed => self.fail("c2 delivery-returned-twice", format!("recv() {what} delivery m{i} twice")),
-            DState::Queued => {}
+            DState::Queued | DState::Dropped => {}
         }
         if !any && !self.poisoned {
             let s = &self.sent[i];
@@ -842,9 +893,15 @@ impl Harness {
 
     /// copy the link-relevant part of the wire trace into the log
     fn log_wire(&mut self) {
-        while self.log_cursor < self.peer.trace.len() {
-            let w = &self.peer.trace[self.log_cursor];
-            self.log_cursor += 1;
+        log_wire_into(&self.peer, &mut self.log, &mut self.log_cursor);
+    }
+}
+
+fn log_wire_into(peer: &Peer, log: &mut Vec<String>, log_cursor: &mut usize) {
+    {
+        while *log_cursor < peer.trace.len() {
+            let w = &peer.trace[*log_cursor];
+            *log_cursor += 1;
             let keep = matches!(
                 &w.body,
                 Body::Perf(Performative::Attach(_))
@@ -857,11 +914,13 @@ impl Harness {
                     | Body::Undecodable(_)
             );
             if keep {
-                self.log.push(format!("    {}", w.short()));
+                log.push(format!("    {}", w.short()));
             }
         }
     }
+}
 
+impl Harness {
     /// the sender puts one delivery on the wire (in `frames` transfer frames)
     fn send_delivery(&mut self, frames: u8, settled: bool) -> usize {
         self.send_delivery_x(frames, settled, false)
@@ -971,6 +1030,13 @@ impl Harness {
                         self.note(format!("    recv() -> Ok(m{i}) although the payload was meant to be undecodable"));
                         self.mon.machinery.push(format!("recv::<Value>() decoded the payload of m{i}, which the harness built to be undecodable"));
                         self.mon.on_handed(i);
+                        self.undisposed.push((i, DeliveryInfo::from(&d)));
+                    }
+                    Some(i) if i < self.mon.sent.len() && self.mon.sent[i].st == DState::Dropped => {
+                        // (part R) a delivery of the old attachment that the link kept across the detach: the
+                        // statement's credit clauses speak about the attachment it was sent on; not judged
+                        self.note(format!("    recv() -> Ok(m{i}), which was sent before the detach"));
+                        self.mon.dropped_returned += 1;
                         self.undisposed.push((i, DeliveryInfo::from(&d)));
                     }
                     Some(i) if i < self.mon.sent.len() => {
@@ -1534,6 +1600,11 @@ pub async fn stream(cfg: Cfg, disp: Disp, style: SenderStyle, total: usize) -> S
 }
 
 async fn dispose(h: &mut Harness, disp: Disp) {
+    // Auto(n): a flow that follows a disposal is a new grant of the library's choosing
+    dispose_with(h, disp, Cause::Grant).await
+}
+
+async fn dispose_with(h: &mut Harness, disp: Disp, cause: Cause) {
     let n = h.undisposed.len();
     if n == 0 {
         return;
@@ -1542,13 +1613,13 @@ async fn dispose(h: &mut Harness, disp: Disp) {
         Disp::Each => {
             for _ in 0..n {
                 h.accept_infos(vec![0], "one").await;
-                h.quiesce(Cause::Grant).await;
+                h.quiesce(cause).await;
             }
         }
         Disp::EachDisposer => {
             for _ in 0..n {
                 h.accept_infos(vec![0], "disposer").await;
-                h.quiesce(Cause::Grant).await;
+                h.quiesce(cause).await;
             }
         }
         Disp::BatchFull | Disp::BatchHalf | Disp::BatchTwo | Disp::BatchThird => {
@@ -1557,7 +1628,7 @@ async fn dispose(h: &mut Harness, disp: Disp) {
             } else {
                 h.accept_infos((0..n).collect(), "all").await;
             }
-            h.quiesce(Cause::Grant).await;
+            h.quiesce(cause).await;
         }
         Disp::PairsReversed => {
             for _ in 0..n {
@@ -1566,7 +1637,7 @@ async fn dispose(h: &mut Harness, disp: Disp) {
                     h.mon.cnt.out_of_order_accepts += 1;
                 }
                 h.accept_infos(vec![last], "one").await;
-                h.quiesce(Cause::Grant).await;
+                h.quiesce(cause).await;
             }
         }
     }
@@ -1608,6 +1679,533 @@ fn run_stream(cfg: Cfg, disp: Disp, style: SenderStyle, total: usize) -> (Stream
 }
 
 // ------------------------------------------------------------------------------------------------
+// part R: credit across detach + resume
+// ------------------------------------------------------------------------------------------------
+//
+// A link that the application detaches (not closes) and resumes is the same link with a new attachment.
+// The statement does not exempt it: on the new attachment the three clauses are judged exactly as on a
+// fresh link.  "The sender's delivery-count as last learnt from the sender (at attach ...)" is the
+// initial-delivery-count of the sender's NEW attach; "the credit it issued" is what the flows sent on the new
+// attachment say (2.6.7: link-credit is initialised to zero when a link endpoint is created, so before the
+// first flow on the new attachment the scripted sender has no credit and sends nothing).
+//
+// What is NOT judged (the statement is silent about it): what happens to deliveries that were waiting inside
+// the link when the application detached it (they belong to the old attachment; an unsettled one stays in the
+// sender's unsettled map, a pre-settled one may be lost by definition) - their number is counted for the
+// evidence; and how much credit the link issues after the resume (an Auto(n) link may come back with another
+// window) as long as clauses 2 and 3 hold - the number of cases in which `Receiver::credit_mode()` differs
+// after the resume is counted for the evidence.
+
+/// the initial-delivery-count of the scripted sender's new attach (a sender is free to pick any value)
+#[derive(Debug, Clone, Copy, PartialEq, Eq, Hash)]
+pub enum Idc2 {
+    /// the number of deliveries it has sent on this link so far
+    Sent,
+    /// the value it announced in the first attach advanced by the deliveries sent (= its delivery-count at the detach)
+    Continued,
+    /// 2^32-2: the count wraps around during the stream after the resume
+    NearWrap,
+}
+pub const IDC2S: [Idc2; 3] = [Idc2::Sent, Idc2::Continued, Idc2::NearWrap];
+
+/// behaviour of the credit-respecting sender after the resume
+#[derive(Debug, Clone, Copy, PartialEq, Eq, Hash)]
+pub enum RStyle {
+    /// sends all it has credit for, in one go (like `SenderStyle::Burst`)
+    Burst,
+    /// first reports its flow state on the new attachment (echo requested), nothing waiting in the link; then like Burst
+    FlowFirst,
+    /// like Burst, and reports its flow state after each burst (like `SenderStyle::BurstWithFlows`)
+    BurstWithFlows,
+    /// NOT credit-respecting (the first half of clause 2 on the new attachment): right after the resume it sends
+    /// all it has credit for and one delivery more; the application receives; the case ends there
+    Overrun,
+}
+pub const RSTYLES: [RStyle; 4] = [RStyle::Burst, RStyle::FlowFirst, RStyle::BurstWithFlows, RStyle::Overrun];
+
+/// disposal disciplines after the resume
+pub const RDISPS: [Disp; 2] = [Disp::Each, Disp::BatchFull];
+
+#[derive(Debug, Clone, Copy, PartialEq, Eq, Hash)]
+pub struct RCase {
+    pub side: Side,
+    /// `Policy::Manual` stands for Manual with set_credit(3) before the first delivery (and again, on the new
+    /// attachment, whenever the credit is used up and everything has been disposed of)
+    pub policy: Policy,
+    /// deliveries received by the application before the detach
+    pub k: u8,
+    /// of which disposed of (the oldest `d`)
+    pub d: u8,
+    /// further deliveries that wait inside the link, not received by the application, at the detach
+    pub b: u8,
+    /// those are pre-settled
+    pub b_settled: bool,
+    pub idc2: Idc2,
+    pub style: RStyle,
+    pub disp: Disp,
+    /// the k-d deliveries still held at the detach are disposed of right after the resume (otherwise only when
+    /// nothing else can happen any more)
+    pub old_first: bool,
+}
+
+impl RCase {
+    fn window(&self) -> u32 {
+        match self.policy {
+            Policy::Auto(n) => n,
+            Policy::Manual => HI,
+        }
+    }
+    fn name(&self) -> String {
+        format!(
+            "{:?}/{}/k={} d={} buffered={}{}/idc2={:?}/{:?}/{:?}/{}",
+            self.side,
+            match self.policy {
+                Policy::Manual => format!("Manual({HI})"),
+                p => p.name(),
+            },
+            self.k,
+            self.d,
+            self.b,
+            if self.b == 0 {
+                ""
+            } else if self.b_settled {
+                " pre-settled"
+            } else {
+                " unsettled"
+            },
+            self.idc2,
+            self.style,
+            self.disp,
+            if self.k == self.d {
+                "-"
+            } else if self.old_first {
+                "held ones disposed first"
+            } else {
+                "held ones disposed last"
+            }
+        )
+    }
+    fn json(&self) -> serde_json::Value {
+        json!({
+            "kind": "resumed", "side": format!("{:?}", self.side), "policy": self.policy.name(), "idc": 5,
+            "k": self.k, "d": self.d, "b": self.b, "b_settled": self.b_settled,
+            "idc2": format!("{:?}", self.idc2), "style": format!("{:?}", self.style), "disp": format!("{:?}", self.disp), "old_first": self.old_first,
+        })
+    }
+    fn from_json(r: &serde_json::Value) -> Option<RCase> {
+        Some(RCase {
+            side: if r["side"] == "Listener" { Side::Listener } else { Side::Client },
+            policy: r["policy"].as_str().and_then(Policy::parse)?,
+            k: r["k"].as_u64()? as u8,
+            d: r["d"].as_u64()? as u8,
+            b: r["b"].as_u64()? as u8,
+            b_settled: r["b_settled"].as_bool().unwrap_or(false),
+            idc2: IDC2S.iter().copied().find(|x| format!("{:?}", x) == r["idc2"].as_str().unwrap_or("")).unwrap_or(Idc2::Sent),
+            style: RSTYLES.iter().copied().find(|x| format!("{:?}", x) == r["style"].as_str().unwrap_or("")).unwrap_or(RStyle::Burst),
+            disp: DISPS.iter().copied().find(|x| format!("{:?}", x) == r["disp"].as_str().unwrap_or("")).unwrap_or(Disp::Each),
+            old_first: r["old_first"].as_bool().unwrap_or(false),
+        })
+    }
+}
+
+#[derive(Debug, Clone, Default)]
+pub struct ResObs {
+    pub setup_error: Option<String>,
+    /// the case does not exist (e.g. the sender has no credit for the deliveries that are to wait in the link)
+    pub not_applicable: Option<String>,
+    pub fails: Vec<(String, String)>,
+    pub log: Vec<String>,
+    /// deliveries recv() returned after the resume
+    pub delivered_after: usize,
+    pub total_after: usize,
+    pub completed: bool,
+    /// deliveries that were waiting inside the link at the detach and never reached the application
+    pub lost_at_detach: usize,
+    pub lost_pre_settled: usize,
+    /// `Receiver::credit_mode()` before the detach / after the resume
+    pub mode_before: String,
+    pub mode_after: String,
+    /// link flows of the receiver judged on the new attachment
+    pub flows_after: u64,
+    /// link-credit of the first flow on the new attachment (None: no flow before the sender acted)
+    pub first_credit_after: Option<u32>,
+    pub set_credits_after: usize,
+    /// style Overrun: the delivery beyond the limit of the new attachment was refused
+    pub overrun_refused: bool,
+    pub rounds: usize,
+    pub cnt: Counters,
+    pub key: u64,
+}
+
+/// detach() + resume() of the real receiver; the scripted sender answers the detach and attaches again announcing `idc2`
+async fn detach_and_resume(h: Harness, idc2: u32) -> Result<(Harness, usize), (String, Vec<String>)> {
+    use fe2o3_amqp::link::receiver::ResumingReceiver;
+    let Harness { cfg, mut peer, rx, disp, our_ch, our_handle: _, next_delivery_id, mut mon, undisposed, mut log, mut log_cursor, _keep } = h;
+    drop(disp);
+    log.push(format!("  [detach] waiting={} undisposed={} Receiver::credit()={} credit_mode={:?}", mon.queued(), undisposed.len(), rx.credit(), rx.credit_mode()));
+    let det = match drive(&mut peer, rx.detach(), H).await {
+        Some(Ok(d)) => d,
+        Some(Err((_d, e))) => return Err((format!("detach() failed: {e}"), log)),
+        None => return Err(("detach() hangs".into(), log)),
+    };
+    settle(&mut peer, 1).await;
+    log_wire_into(&peer, &mut log, &mut log_cursor);
+    // everything up to here belongs to the old attachment
+    let cursor = peer.trace.len();
+    peer.auto.attach = true;
+    peer.auto.initial_delivery_count = idc2;
+    log.push(format!("  [resume] the sender will announce initial-delivery-count={idc2}"));
+    let rx = match drive(&mut peer, det.resume(), H).await {
+        Some(Ok(r)) => {
+            let how = match &r {
+                ResumingReceiver::Complete(_) => "Complete",
+                ResumingReceiver::IncompleteUnsettled(_) => "IncompleteUnsettled",
+                ResumingReceiver::Resume(_) => "Resume",
+            };
+            log_wire_into(&peer, &mut log, &mut log_cursor);
+            log.push(format!("    resume() -> Ok({how})"));
+            r.into_receiver()
+        }
+        Some(Err(e)) => return Err((format!("resume() failed: {}", e.kind), log)),
+        None => return Err(("resume() hangs".into(), log)),
+    };
+    settle(&mut peer, 2).await;
+    let Some(l) = peer.links.iter().rev().find(|l| !l.detached).cloned() else {
+        return Err(("the scripted sender saw no new attach".into(), log));
+    };
+    let lost = mon.reattach(idc2, l.lib_handle, cursor);
+    // the flow (if any) sent as part of the resume: how much credit the link issues on the new attachment is the
+    // library's choice (judged by what it is good for: clauses 2 and 3)
+    mon.absorb(&peer.trace, Cause::Grant);
+    let disp = rx.disposer();
+    let mut h = Harness { cfg, peer, rx, disp, our_ch, our_handle: l.our_handle, next_delivery_id, mon, undisposed, log, log_cursor, _keep };
+    h.log_wire();
+    Ok((h, lost))
+}
+
+pub async fn resumed(c: RCase) -> ResObs {
+    let mut o = ResObs::default();
+    let cfg = Cfg { side: c.side, policy: c.policy, idc: 5 };
+    let n = c.window();
+    let mut h = match setup(cfg).await {
+        Ok(h) => h,
+        Err(e) => {
+            o.setup_error = Some(e);
+            return o;
+        }
+    };
+    h.note(format!("resumed link: {}", c.name()));
+    h.log_wire();
+    // ---------------------------------------------------------------- before the detach
+    let mut pre: Vec<Ev> = vec![];
+    if c.policy == Policy::Manual {
+        pre.push(Ev::SetCreditHi);
+    }
+    pre.extend(std::iter::repeat(Ev::TxOne).take(c.k as usize));
+    pre.extend(std::iter::repeat(Ev::Recv).take(c.k as usize));
+    pre.extend(std::iter::repeat(Ev::AccOld).take(c.d as usize));
+    pre.extend(std::iter::repeat(if c.b_settled { Ev::TxSettled } else { Ev::TxOne }).take(c.b as usize));
+    for ev in pre {
+        if !h.step(ev).await {
+            o.not_applicable = Some(format!("{:?} is not enabled (sender credit {}, waiting {}, undisposed {})", ev, h.mon.snd_credit(), h.mon.queued(), h.undisposed.len()));
+            o.log = std::mem::take(&mut h.log);
+            return o;
+        }
+    }
+    if h.mon.poisoned || h.mon.queued() != c.b as usize || h.undisposed.len() != (c.k - c.d) as usize {
+        o.setup_error = Some(format!(
+            "the state before the detach is not the one intended: waiting {} (wanted {}), undisposed {} (wanted {}), refusal seen: {}",
+            h.mon.queued(),
+            c.b,
+            h.undisposed.len(),
+            c.k - c.d,
+            h.mon.poisoned
+        ));
+        o.log = std::mem::take(&mut h.log);
+        return o;
+    }
+    o.lost_pre_settled = h.mon.sent.iter().filter(|s| s.st == DState::Queued && s.settled).count();
+    o.mode_before = format!("{:?}", h.rx.credit_mode());
+    // ---------------------------------------------------------------- detach + resume
+    let idc2 = match c.idc2 {
+        Idc2::Sent => h.mon.sent.len() as u32,
+        Idc2::Continued => h.mon.snd_dc,
+        Idc2::NearWrap => u32::MAX - 1,
+    };
+    let flows_before = h.mon.cnt.rflows_checked;
+    let rflows_before = h.mon.rflows.len() + 1; // + the state "no credit issued yet" of the new attachment
+    let (mut h, lost) = match detach_and_resume(h, idc2).await {
+        Ok(x) => x,
+        Err((e, log)) => {
+            o.setup_error = Some(e);
+            o.log = log;
+            return o;
+        }
+    };
+    o.lost_at_detach = lost;
+    o.mode_after = format!("{:?}", h.rx.credit_mode());
+    o.first_credit_after = h.mon.rflows.get(rflows_before).map(|f| f.credit);
+    h.note(format!(
+        "  [resumed] Receiver::credit()={} credit_mode={:?} (before the detach: {}); {} delivery(ies) that waited in the link are gone",
+        h.rx.credit(),
+        h.rx.credit_mode(),
+        o.mode_before,
+        lost
+    ));
+    // ---------------------------------------------------------------- the stream on the new attachment
+    let dispose_cause = match c.policy {
+        Policy::Auto(_) => Cause::Grant,
+        // Manual: the application did not ask for a flow; whatever comes is a report of the credit outstanding
+        Policy::Manual => Cause::Spontaneous,
+    };
+    let total = (3 * n + 3) as usize;
+    o.total_after = total;
+    let sent0 = h.mon.sent.len();
+    let handed0 = h.mon.handed;
+    // the deliveries the application still holds from before the detach
+    let mut held: Vec<(usize, DeliveryInfo)> = std::mem::take(&mut h.undisposed);
+    if c.old_first && !held.is_empty() {
+        h.note(format!("  [app] disposes of the {} deliveries it holds from before the detach", held.len()));
+        h.undisposed = std::mem::take(&mut held);
+        dispose_with(&mut h, c.disp, dispose_cause).await;
+    }
+    if c.style == RStyle::FlowFirst {
+        h.note("  [sender] reports its flow state on the new attachment (echo)".into());
+        h.send_sender_flow(true);
+        h.quiesce(Cause::Report).await;
+    }
+    let batch = match c.disp {
+        Disp::BatchFull => n as usize,
+        _ => 1,
+    };
+    let mut rounds = 0usize;
+    let mut set_credit_was_last = false;
+    if c.style == RStyle::Overrun {
+        // one beyond the limit of the new attachment: must be refused as a transfer-limit violation, whatever
+        // credit the old attachment had left
+        o.total_after = 0;
+        let credit = h.mon.snd_credit();
+        h.note(format!("  [sender] credit={credit} sends {}", credit + 1));
+        for _ in 0..=credit {
+            h.send_delivery(1, false);
+        }
+        h.quiesce(Cause::Spontaneous).await;
+        while h.mon.queued() > 0 && !h.mon.poisoned {
+            h.note(format!("  [app] recv, waiting={}", h.mon.queued()));
+            if !h.recv_once().await {
+                break;
+            }
+        }
+        if h.mon.poisoned && h.mon.queued() > 0 {
+            // one more recv(): a refused delivery must not come back
+            h.recv_once().await;
+        }
+        h.quiesce(Cause::Spontaneous).await;
+        o.overrun_refused = h.mon.sent.last().map(|s| s.st == DState::Rejected).unwrap_or(false);
+    }
+    while c.style != RStyle::Overrun {
+        rounds += 1;
+        if h.mon.handed - handed0 >= total && h.undisposed.is_empty() && held.is_empty() {
+            o.completed = true;
+            break;
+        }
+        if rounds > 20 * total + 50 {
+            h.mon.fail("c3 no-termination", "the stream after the resume did not finish within the round budget".into());
+            break;
+        }
+        let mut progress = false;
+        // ---- the sender: sends whenever the latest flow on the NEW attachment gives it credit, never more
+        let remaining = total - (h.mon.sent.len() - sent0);
+        let credit = h.mon.snd_credit() as usize;
+        let s = credit.min(remaining);
+        if s > 0 {
+            h.note(format!("  [sender] credit={credit} sends {s}"));
+            for _ in 0..s {
+                h.send_delivery(1, false);
+            }
+            if c.style == RStyle::BurstWithFlows {
+                h.send_sender_flow(false);
+            }
+            h.quiesce(Cause::Spontaneous).await;
+            progress = true;
+            set_credit_was_last = false;
+        }
+        if h.mon.snd_credit() == 0 {
+            h.mon.cnt.limit_reached += 1;
+        }
+        // ---- the application: receives what is there, disposes in its discipline
+        while h.mon.queued() > 0 && !h.mon.poisoned {
+            h.note(format!("  [app] recv, waiting={}", h.mon.queued()));
+            if !h.recv_once().await {
+                break;
+            }
+            progress = true;
+            if h.undisposed.len() >= batch {
+                dispose_with(&mut h, c.disp, dispose_cause).await;
+            }
+        }
+        if h.mon.poisoned {
+            if let Policy::Auto(n) = c.policy {
+                h.mon.fail(
+                    "c3 credit-respecting-sender-refused",
+                    format!("Auto({n}): after {} deliveries on the new attachment a sender that never exceeded its credit had a delivery refused", h.mon.handed - handed0),
+                );
+            }
+            break;
+        }
+        if progress {
+            continue;
+        }
+        // nothing to send, nothing to receive: an application that keeps disposing now disposes of whatever it
+        // still holds - a partial batch, then the deliveries from before the detach - before anybody may call it a stall
+        if !h.undisposed.is_empty() {
+            h.note("  [app] flushes its partial batch".into());
+            dispose_with(&mut h, c.disp, dispose_cause).await;
+            continue;
+        }
+        if !held.is_empty() {
+            h.note(format!("  [app] disposes of the {} deliveries it holds from before the detach", held.len()));
+            h.undisposed = std::mem::take(&mut held);
+            dispose_with(&mut h, c.disp, dispose_cause).await;
+            continue;
+        }
+        if h.mon.handed - handed0 >= total {
+            continue; // finished (checked at the top)
+        }
+        match c.policy {
+            Policy::Manual => {
+                // Manual: credit comes from the application.  Everything has been received and disposed of:
+                // it asks for the next window.  (Clause 3 is about Auto(n); nothing is demanded here beyond
+                // clauses 1 and 2 - if the sender still has no credit after this flow, the flow itself was
+                // wrong and clause 1 has said so.)
+                if set_credit_was_last {
+                    h.note("  [app] set_credit did not give the sender any credit: the stream ends here".into());
+                    break;
+                }
+                let r = drive(&mut h.peer, h.rx.set_credit(HI), H).await;
+                h.note(format!("  [app] set_credit({HI}) -> {:?}", r.map(|r| r.map_err(|e| e.to_string()))));
+                h.quiesce(Cause::SetCredit(HI)).await;
+                o.set_credits_after += 1;
+                set_credit_was_last = true;
+            }
+            Policy::Auto(n) => {
+                h.mon.cnt.stall_checks += 1;
+                let last = h.mon.rflows.last().unwrap().clone();
+                h.mon.fail(
+                    "c3 auto-credit-stall",
+                    format!(
+                        "Auto({n}): the link was detached with {} deliveries received ({} disposed of) and {} waiting in the link, and resumed (the sender's new attach \
+                         announced initial-delivery-count {idc2}); after {} of {total} deliveries on the new attachment the application has received and disposed of everything, \
+                         the sender has no credit (sender delivery-count {}, last receiver flow delivery-count {} credit {}; Receiver::credit_mode() is {} now, was {}): the stream stalls",
+                        c.k,
+                        c.d,
+                        c.b,
+                        h.mon.handed - handed0,
+                        h.mon.snd_dc,
+                        last.dc,
+                        last.credit,
+                        o.mode_after,
+                        o.mode_before
+                    ),
+                );
+                break;
+            }
+        }
+    }
+    if let Some(m) = h.mon.machinery.first() {
+        o.setup_error = Some(m.clone());
+    }
+    o.delivered_after = h.mon.handed - handed0;
+    o.rounds = rounds;
+    o.flows_after = h.mon.cnt.rflows_checked - flows_before;
+    o.fails = std::mem::take(&mut h.mon.fails);
+    o.fails.sort();
+    o.fails.dedup_by(|a, b| a.0 == b.0);
+    o.cnt = h.mon.cnt.clone();
+    o.key = h64(&(c, o.delivered_after, h.mon.rflows.len(), h.mon.rflows[rflows_before - 1..].iter().map(|f| (f.dc.wrapping_sub(idc2), f.credit)).collect::<Vec<_>>()));
+    o.log = std::mem::take(&mut h.log);
+    o
+}
+
+fn run_resumed(c: RCase) -> (ResObs, Option<String>) {
+    let scen: Scenario<ResObs> = Arc::new(move || Box::pin(resumed(c)));
+    let ex = run_exec(vec![], &RunCfg::none(), &scen);
+    let ctxs = format!("resumed link {}", c.name());
+    let mut mach = None;
+    let o = match ex.out {
+        Some(mut o) => {
+            if let Some(e) = o.setup_error.take() {
+                mach = Some(format!("{ctxs}: harness problem (state before the detach not reached / detach or resume failed): {e}; trace: {:?}", o.log));
+            }
+            for f in o.fails.iter_mut() {
+                f.1 = format!("{ctxs}: {}", f.1);
+            }
+            o
+        }
+        None => {
+            mach = Some(if ex.watchdog {
+                format!("{ctxs}: the execution did not finish in real time")
+            } else {
+                format!("{ctxs}: scenario panicked: {:?}", ex.panics)
+            });
+            ResObs::default()
+        }
+    };
+    if ex.spun && mach.is_none() {
+        mach = Some(format!("{ctxs}: some task polled more than 20000 times at one virtual instant"));
+    }
+    if let Some(p) = ex.panics.iter().find(|p| !p.contains("vcheck/src")) {
+        if mach.is_none() {
+            mach = Some(format!("{ctxs}: a library task panicked: {p}"));
+        }
+    }
+    (o, mach)
+}
+
+/// all cases of part R inside the bound
+fn resumed_cases(quick: bool) -> Vec<RCase> {
+    let mut v = vec![];
+    for side in [Side::Client, Side::Listener] {
+        for policy in [Policy::Auto(1), Policy::Auto(2), Policy::Auto(4), Policy::Manual] {
+            let n = match policy {
+                Policy::Auto(n) => n as u8,
+                Policy::Manual => HI as u8,
+            };
+            for k in 0..=n {
+                for d in 0..=k {
+                    // (whether the sender has credit for the b deliveries that are to wait in the link depends on
+                    // the top-ups the disposals caused: decided by the execution, see `not_applicable`)
+                    for (b, b_settled) in [(0u8, false), (1, false), (1, true), (2, false), (2, true)] {
+                        for idc2 in IDC2S {
+                            for style in RSTYLES {
+                                for disp in RDISPS {
+                                    for old_first in [false, true] {
+                                        if old_first && k == d {
+                                            continue;
+                                        }
+                                        // the listener differs from the client only in how the first attachment comes
+                                        // about: the quick tier runs one discipline and two of the three new counts there
+                                        if quick && side == Side::Listener && (disp != Disp::Each || idc2 == Idc2::NearWrap) {
+                                            continue;
+                                        }
+                                        // nothing is disposed of in a discipline after the overrun
+                                        if style == RStyle::Overrun && disp != Disp::Each {
+                                            continue;
+                                        }
+                                        v.push(RCase { side, policy, k, d, b, b_settled, idc2, style, disp, old_first });
+                                    }
+                                }
+                            }
+                        }
+                    }
+                }
+            }
+        }
+    }
+    v
+}
+
+// ------------------------------------------------------------------------------------------------
 // driver
 // ------------------------------------------------------------------------------------------------
 
@@ -1642,7 +2240,10 @@ fn plans(quick: bool) -> Vec<Plan> {
             v.push(Plan { cfg, alphabet: &FULL, alphabet_name: "full", depth: if deep { 5 } else { 4 } });
             v.push(Plan { cfg, alphabet: core, alphabet_name: core_name, depth: if deep { 6 } else { 5 } });
         } else {
-            v.push(Plan { cfg, alphabet: &FULL, alphabet_name: "full", depth: if deep { 6 + x } else { 5 + x } });
+            // (quick tier: Auto(2) over the full alphabet one event shallower - 372k executions at depth 6 - so that the
+            // quick budget is not exhausted on a loaded machine; the thorough tier runs depth 7)
+            let full_depth = if deep && !(x == 0 && p == Policy::Auto(2)) { 6 + x } else { 5 + x };
+            v.push(Plan { cfg, alphabet: &FULL, alphabet_name: "full", depth: full_depth });
             // (the two largest core searches are one event shallower in the quick tier: they alone took 18 s)
             let core_depth = if manual {
                 6 + 2 * x
@@ -1650,6 +2251,9 @@ fn plans(quick: bool) -> Vec<Plan> {
                 7 + 2 * x
             } else if deep {
                 8 + x
+            } else if x == 0 && p == Policy::Auto(3) {
+                // (quick tier: 215k executions at depth 7)
+                6
             } else {
                 7 + x
             };
@@ -1706,6 +2310,11 @@ pub fn run(ctx: &Ctx) -> Outcome {
             }
         }
     }
+    // (development aid: C09_ONLY_R=1 runs part R alone)
+    let only_r = std::env::var_os("C09_ONLY_R").is_some();
+    if only_r {
+        items.clear();
+    }
     let stream_cases = items.len();
     let results = par_map(&items, ctx.threads, |_, (cfg, d, s, total)| run_stream(*cfg, *d, *s, *total));
     let mut stream_keys = std::collections::HashSet::new();
@@ -1736,8 +2345,79 @@ pub fn run(ctx: &Ctx) -> Outcome {
     }
     states += stream_keys.len() as u64;
 
+    // ---------------------------------------------------------------- part R: credit across detach + resume
+    let t_r = Instant::now();
+    let rcases = resumed_cases(ctx.quick());
+    let rres = par_map(&rcases, ctx.threads, |_, c| run_resumed(*c));
+    let mut r_keys = std::collections::HashSet::new();
+    let (mut r_cases, mut r_na, mut r_completed, mut r_delivered, mut r_flows, mut r_lost, mut r_lost_settled, mut r_mode_changed, mut r_set_credits, mut r_zero_first, mut r_streams, mut r_overruns, mut r_overruns_refused) =
+        (0u64, 0u64, 0u64, 0u64, 0u64, 0u64, 0u64, 0u64, 0u64, 0u64, 0u64, 0u64, 0u64);
+    let mut r_sample: Option<serde_json::Value> = None;
+    for (c, (o, mach)) in rcases.iter().zip(rres) {
+        executions += 1;
+        if let Some(m) = mach {
+            if mach_seen < 5 {
+                out.machinery_errors.push(m);
+            }
+            mach_seen += 1;
+            continue;
+        }
+        if o.not_applicable.is_some() {
+            r_na += 1;
+            continue;
+        }
+        r_cases += 1;
+        if std::env::var_os("C09_R_DUMP").is_some() {
+            eprintln!(
+                "R {} | completed={} delivered={}/{} mode {} -> {} first-credit={:?} lost={} | {:?}",
+                c.name(),
+                o.completed,
+                o.delivered_after,
+                o.total_after,
+                o.mode_before,
+                o.mode_after,
+                o.first_credit_after,
+                o.lost_at_detach,
+                o.fails.iter().map(|f| f.0.as_str()).collect::<Vec<_>>()
+            );
+        }
+        r_keys.insert(o.key);
+        r_completed += o.completed as u64;
+        if c.style == RStyle::Overrun {
+            r_overruns += 1;
+            r_overruns_refused += o.overrun_refused as u64;
+        } else {
+            r_streams += 1;
+        }
+        r_delivered += o.delivered_after as u64;
+        r_flows += o.flows_after;
+        r_lost += o.lost_at_detach as u64;
+        r_lost_settled += o.lost_pre_settled as u64;
+        r_mode_changed += (o.mode_before != o.mode_after) as u64;
+        r_set_credits += o.set_credits_after as u64;
+        r_zero_first += (o.first_credit_after == Some(0)) as u64;
+        cnt.add(&o.cnt);
+        transitions += o.rounds as u64;
+        for (sig, detail) in &o.fails {
+            let mut rj = c.json();
+            rj["trace"] = json!(o.log);
+            out.violation(sig.clone(), detail.clone(), rj);
+        }
+        if r_sample.is_none() && o.fails.is_empty() && o.completed && c.policy == Policy::Auto(2) && c.k == 1 && c.b == 1 {
+            r_sample = Some(json!({"kind": "resumed", "case": c.name(), "trace": o.log}));
+        }
+    }
+    states += r_keys.len() as u64;
+    if std::env::var_os("C09_TIMES").is_some() {
+        eprintln!("C09 part R: {} executions ({} applicable) in {:.1}s", rcases.len(), r_cases, t_r.elapsed().as_secs_f64());
+    }
+    let r_sample_pending = r_sample;
+
     // ---------------------------------------------------------------- stage 1: history search
     for pl in plans(ctx.quick()) {
+        if only_r {
+            break;
+        }
         let cfg = pl.cfg;
         let alpha = pl.alphabet;
         let local = std::sync::Mutex::new(Counters::default());
@@ -1805,16 +2485,48 @@ pub fn run(ctx: &Ctx) -> Outcome {
     out.set("branches_ended_by_a_disabled_event", pruned);
     out.set("stream_cases", stream_cases as u64);
     out.set("stream_deliveries_returned", stream_delivered);
+    out.set("resumed_link_cases", r_cases);
+    out.set("resumed_link_streams_completed", r_completed);
+    out.set(
+        "resumed_link",
+        json!({
+            "combinations_enumerated": rcases.len(),
+            "combinations_that_do_not_exist (the sender has no credit for the deliveries that are to wait in the link)": r_na,
+            "cases_executed": r_cases,
+            "streams_of_a_credit_respecting_sender_after_the_resume": r_streams,
+            "streams_completed_after_the_resume": r_completed,
+            "cases_with_one_delivery_beyond_the_limit_of_the_new_attachment": r_overruns,
+            "of_which_refused": r_overruns_refused,
+            "deliveries_returned_by_recv_after_the_resume": r_delivered,
+            "receiver_flows_judged_on_the_new_attachment": r_flows,
+            "manual_set_credit_calls_on_the_new_attachment": r_set_credits,
+            "not_judged: deliveries_waiting_in_the_link_at_detach_that_never_reached_the_application": r_lost,
+            "not_judged: of_which_pre_settled": r_lost_settled,
+            "not_judged: cases_in_which_Receiver::credit_mode()_differs_after_the_resume": r_mode_changed,
+            "cases_whose_first_flow_on_the_new_attachment_grants_zero_credit": r_zero_first,
+        }),
+    );
     out.set("non_vacuity", cnt.json());
+    if let Some(rs) = r_sample_pending {
+        samples.truncate(2);
+        samples.push(rs);
+    }
     out.set("samples", json!(samples));
     out.set("exhaustive", !truncated);
     out.set(
         "bound",
         format!(
             "long streams: Auto(n) n in {{1,2,3,6,10}} x {} disposal disciplines x {} sender styles x initial delivery-count {{5, 2^32-4}} (client) / {{5}} (listener), 5n+3 deliveries each; \
+             resumed links (detach + resume): {{Auto(1), Auto(2), Auto(4), Manual with set_credit(3)}} x k in 0..=n received x d in 0..=k disposed of x {{0, 1, 2}} deliveries waiting in the link \
+             (unsettled / pre-settled) x new initial-delivery-count {{deliveries sent, continued, 2^32-2}} x {} sender styles (three credit-respecting, one that overruns the new limit by one) x {} disposal disciplines x held deliveries disposed of first / last, \
+             3n+3 deliveries after the resume; client and listener{} = {} combinations; \
              histories: {}",
             DISPS.len(),
             STYLES.len(),
+            RSTYLES.len(),
+            RDISPS.len(),
+            if ctx.quick() { " (listener: one discipline, two of the counts)" } else { "" },
+            rcases.len(),
             bounds.join("; ")
         ),
     );
@@ -1829,6 +2541,7 @@ pub fn run(ctx: &Ctx) -> Outcome {
     out.assume("'rejecting an overrun as a transfer-limit violation' (clause 2) passes if recv() returns RecvError::TransferLimitExceeded or a detach names amqp:link:transfer-limit-exceeded; a delivery counts as an overrun only if it is outside the limit of every flow issued between its sending and its recv()");
     out.assume("clause 3 is demanded only of Auto(n), only towards a sender that never exceeded its credit, and only once the application has received everything that arrived and disposed of everything it received");
     out.assume("a delivery that arrives intact but cannot be decoded by recv::<Value>() (RecvError::MessageDecode carrying its DeliveryInfo) is a delivery received and a credit used like any other (clauses 1 and 2); the application has disposed of it (clause 3) once it has rejected or released it through that DeliveryInfo");
+    out.assume("a link that was detached and resumed is judged on the new attachment like a fresh link: the delivery-count last learnt from the sender is the initial-delivery-count of its new attach, the credit issued is what the flows on the new attachment say (none before the first one); deliveries that waited inside the link at the detach and the size of the window after the resume are counted, not judged");
     out.assume("the listener's LinkAcceptor has no public credit-mode setting: the accepted receiver (Auto(200)) is brought to the policy under test with set_credit_mode / set_credit before the history starts");
     out
 }
@@ -1844,7 +2557,21 @@ fn replay(p: &std::path::Path, mut out: Outcome) -> Outcome {
     };
     let idc = r["idc"].as_u64().unwrap_or(5) as u32;
     let cfg = Cfg { side, policy, idc };
-    let (fails, trace) = if r["kind"] == "stream" {
+    let (fails, trace) = if r["kind"] == "resumed" {
+        let Some(c) = RCase::from_json(r) else {
+            out.machinery_errors.push(format!("replay file {} does not describe a resumed-link case", p.display()));
+            return out;
+        };
+        println!("replaying resumed link {}", c.name());
+        let (o, mach) = run_resumed(c);
+        if let Some(m) = mach {
+            out.machinery_errors.push(m);
+        }
+        if let Some(na) = &o.not_applicable {
+            println!("  the case does not exist: {na}");
+        }
+        (o.fails, o.log)
+    } else if r["kind"] == "stream" {
         let d = DISPS.iter().copied().find(|d| format!("{:?}", d) == r["disp"].as_str().unwrap_or("")).unwrap_or(Disp::Each);
         let st = STYLES.iter().copied().find(|d| format!("{:?}", d) == r["style"].as_str().unwrap_or("")).unwrap_or(SenderStyle::Burst);
         let total = r["total"].as_u64().unwrap_or(8) as usize;
